@@ -24,10 +24,15 @@ pub fn step(rng: &mut impl Rng, t: u64, l: u64, iv: u64) -> u64 {
 
 /// C01: direct/reject flow rules on the default geometry.
 pub fn c01(rng: &mut impl Rng, len: usize) -> Vec<Value> {
-    let intervals: [u64; 12] = [0, 500, 1000, 1500, 2000, 2500, 5000, 10000, 250, 700, 20000, 3000];
+    // one history in four uses a private window whose length is no multiple of the global bucket length
+    // (the epoch must be a multiple of every private interval, so the other rules then stay on short ones)
+    let weird = if rng.gen_range(0..4) == 0 { *pick(rng, &[1300u64, 1251, 2750, 9999]) } else { 0 };
+    let base: [u64; 12] = [0, 500, 1000, 1500, 2000, 2500, 5000, 10000, 250, 700, 20000, 3000];
+    let intervals: Vec<u64> = if weird > 0 { vec![0, 500, 1000, 2000, weird, weird] } else { base.to_vec() };
+    let align = if weird > 0 { crate::util::lcm(2000, weird) } else { 2_100_000 };
     let thr: [[u64; 2]; 9] = [[0, 1], [1, 1], [3, 2], [2, 1], [5, 2], [3, 1], [7, 2], [5, 1], [10, 1]];
     let mut evs = vec![json!({"e": "reset", "t": rng.gen_range(0..20000u64), "obs": 0,
-        "cfg": {"nt": 20, "It": 10000, "n": 2, "I": 1000}, "align": 2_100_000})];
+        "cfg": {"nt": 20, "It": 10000, "n": 2, "I": 1000}, "align": align})];
     let mut t = evs[0]["t"].as_u64().unwrap();
     let nres = rng.gen_range(1..=2);
     let mut rules = Vec::new();
@@ -59,7 +64,7 @@ pub fn c01(rng: &mut impl Rng, len: usize) -> Vec<Value> {
         }
         let rule = pick(rng, &rules).clone();
         let iv = rule["I"].as_u64().unwrap();
-        let l = if iv == 700 || iv == 250 || iv == 20000 { iv } else { 500 };
+        let l = if iv == 700 || iv == 250 || iv == 20000 || (weird > 0 && iv == weird) { iv } else { 500 };
         let span = if rng.gen_bool(0.5) { iv.max(500) } else { max_iv };
         t += step(rng, t, l, span);
         match rng.gen_range(0..10) {
@@ -297,6 +302,12 @@ pub fn c07(rng: &mut impl Rng, len: usize) -> Vec<Value> {
         let maxq = *pick(rng, &[0u64, 1, 50, 500, 1000, 2000]);
         spacing = if thr[0] == 0 { 100 } else { (if iv == 0 { 1000 } else { iv }) * thr[1] / thr[0] };
         flw.push(json!({"id": "f1", "res": "r1", "calc": "direct", "ctl": "throttling", "thr": thr, "I": iv, "maxq": maxq}));
+        // sometimes a second throttling rule on the same resource: the caller is held by one after the other
+        if rng.gen_range(0..3) == 0 {
+            let thr2 = *pick(rng, &[[1u64, 1], [2, 1], [4, 1], [5, 1], [3, 2]]);
+            let maxq2 = *pick(rng, &[0u64, 500, 1000, 2000, 5000]);
+            flw.push(json!({"id": "f2", "res": "r1", "calc": "direct", "ctl": "throttling", "thr": thr2, "I": *pick(rng, &[0u64, 1000, 2000]), "maxq": maxq2}));
+        }
     }
     if mode >= 2 {
         let q = rng.gen_range(0..=5u64);
@@ -637,6 +648,13 @@ pub fn with_reloads(rng: &mut impl Rng, evs: Vec<Value>, fam: &str, res: &str) -
                 if !idxs.is_empty() {
                     let i = *pick(rng, &idxs);
                     change_one_field(rng, &mut rules[i], fam);
+                    // sometimes a second rule of the resource changes in the same call
+                    if idxs.len() > 1 && rng.gen_bool(0.4) {
+                        let j = *pick(rng, &idxs);
+                        if j != i {
+                            change_one_field(rng, &mut rules[j], fam);
+                        }
+                    }
                 }
             }
             // another order
